@@ -5,6 +5,11 @@ V = os.path.dirname(os.path.dirname(os.path.abspath(__file__)))
 ALL = ["C%02d" % i for i in range(1, 20)]
 TECH = "symbolic execution of the real /repo source on z3 bit-vector proxies (symx), per-path SMT queries, concrete replay"
 CLAIMED = {
+ "C11": dict(text="Bounded exhaustive symbolic path exploration: every decoder on N fully symbolic bytes for each N in the "
+                  "bound under a step budget proportional to N; all feasible paths are enumerated with z3 deciding each "
+                  "data-dependent branch/slice bound; budget overruns are replayed concretely under a line counter.",
+             ref="3/C11", note="N <= 20 quick (12 for VPD 83h), <= 32 thorough (16 for VPD 83h); hangs needing longer "
+                               "buffers are outside; text decoding over-approximated"),
  "C13": dict(text="Bounded symbolic verification: every facade method x defining set x subsets of its documented optional "
                   "keyword arguments (parsed from the current docstrings), argument values and device-written payload "
                   "symbolic; z3 decides CDB positions/defaults and that cmd.result equals an independent decode of the "
